@@ -190,23 +190,55 @@ pub fn explore(ex: &Ex) {
         Scale::Thorough => vec![20, 33, 34, 48, 64, 100],
     };
     ex.bound("c20.wide", "extras", json!(widths));
-    par_partitions(ex.rep, widths, |n, l| {
-        let labels: Vec<RLabel> = (0..*n)
-            .map(|k| match k % 6 {
-                0 => l_int(6 + k as i64),          // one or two bytes
-                1 => l_int(-1 - k as i64),
-                2 => l_int(300 + k as i64),        // three bytes
-                3 => l_text(&format!("t{}", k)),
-                4 => l_int(-300 - k as i64),
-                _ => l_int(70000 + k as i64),      // five bytes
-            })
-            .collect();
+    let mut deals: Vec<(usize, usize)> = Vec::new();
+    for n in &widths {
+        for variant in 0..12usize {
+            deals.push((*n, variant));
+        }
+    }
+    par_partitions(ex.rep, deals, |(n, variant), l| {
+        // a pool in which many labels share an encoded length (one byte: 6..23 and -1..-24; two
+        // bytes: 24.., -25.., one-character texts; three bytes; five bytes), dealt round-robin
+        let mut pool: Vec<Vec<RLabel>> = vec![
+            (6..=23).map(l_int).chain((1..=24).map(|v| l_int(-v))).collect(),
+            (24..=60).map(l_int).chain((25..=60).map(|v| l_int(-v))).chain(["a", "b", "z", "q"].iter().map(|t| l_text(t))).collect(),
+            (256..=270).map(l_int).chain((257..=270).map(|v| l_int(-v))).chain(["aa", "zz", "ab"].iter().map(|t| l_text(t))).collect(),
+            (70000..=70005).map(l_int).collect(),
+        ];
+        // twelve different label sets per size: the class pattern is rotated and the pools are
+        // consumed from either end (an unstable sort's outcome depends on the set, not its order)
+        if variant % 2 == 1 {
+            for p in pool.iter_mut() {
+                p.reverse();
+            }
+        }
+        if variant % 3 == 1 {
+            pool[0].rotate_left(7);
+            pool[1].rotate_left(11);
+        }
+        let mut labels: Vec<RLabel> = Vec::new();
+        let mut turn = variant / 2;
+        while labels.len() < *n {
+            let class = [0usize, 0, 1, 0, 1, 2, 0, 3, 1, 0, 0, 2][turn % 12];
+            turn += 1;
+            if let Some(x) = pool[class].pop() {
+                labels.push(x);
+            } else if pool.iter().all(|p| p.is_empty()) {
+                break;
+            }
+        }
+        let n = &labels.len();
         let perms: Vec<Vec<usize>> = vec![
             (0..*n).collect(),
             (0..*n).rev().collect(),
             (0..*n).map(|k| (k * 7 + 3) % *n).collect::<Vec<_>>(),
             (0..*n).map(|k| (k * 11 + 5) % *n).collect::<Vec<_>>(),
             (0..*n).map(|k| if k % 2 == 0 { k / 2 } else { *n - 1 - k / 2 }).collect(),
+            (0..*n).map(|k| (k * 13 + 1) % *n).collect::<Vec<_>>(),
+            (0..*n).map(|k| (k * 17 + 2) % *n).collect::<Vec<_>>(),
+            (0..*n).map(|k| (k * 19 + 7) % *n).collect::<Vec<_>>(),
+            (0..*n).map(|k| (k * 23 + 11) % *n).collect::<Vec<_>>(),
+            (0..*n).map(|k| (k * 29 + 4) % *n).collect::<Vec<_>>(),
         ];
         for perm in perms {
             // only true permutations (the multiplicative ones are, when gcd(step, n) == 1)
